@@ -10,6 +10,9 @@
 import NemoVerif.Lemmas.Stream
 import NemoVerif.Lemmas.StreamAsIs
 import NemoVerif.Lemmas.StreamUsage
+import NemoVerif.Lemmas.StreamTopK
+import NemoVerif.Lemmas.StreamPipeCfg
+import NemoVerif.Lemmas.StreamFind
 import NemoVerif.Generated.C18
 namespace NemoVerif.C18
 open NemoVerif.Stream
@@ -64,6 +67,12 @@ theorem cut_is_earliest (S : List Str) (t u : Str) :
 theorem no_cut_iff_no_stop (S : List Str) (t : Str) :
     cutStop S t = none ↔ ∀ u r, t = u ++ r → stopHere S r = false :=
   cutStop_none_iff S t
+
+/-- Meaning of "cut at the first stop sequence" (3): the scan is the source's formula
+    `completion[: min(completion.find(s) for s in self.stop if s in completion)]` (`cutMin`), for every list of
+    stop sequences (the empty string included) and every text. -/
+theorem cut_is_min_find (S : List Str) (t : Str) : cutStop S t = cutMin S t :=
+  cutStop_eq_cutMin S t
 
 /-- Hold-back safety: a text that does not end inside a pattern can be released — whatever follows,
     the first stop sequence of the whole text is the one already visible, or lies in what follows. -/
@@ -195,6 +204,40 @@ theorem pipe_chunk_invariant (cfg : Cfg) (hS : NonemptyStops cfg.stop) (text : S
     deliveredOf (pipeTarget (run cfg cs e).out) = spec cfg text e :=
   (pipe_consumer_view cfg cs e).trans (chunk_invariant cfg hS text cs e hflat hne).1
 
+/-- TWO-STAGE PIPE (phase 4).  The piped handler has its OWN configuration `cfg2` (prefix/suffix/stops): what ITS
+    consumer receives, and its `completion`, is `spec cfg2` of what the producer delivered, i.e. of `spec cfg text`
+    — for every chunking — provided the producer forwarded an end marker (otherwise the second handler's held-back
+    tail is never flushed: `push_chunk("")`/`push_chunk(None)` after a stop sequence was hit, or when the prefix never
+    came, forward nothing). -/
+theorem pipe_configured_chunk_invariant (cfg cfg2 : Cfg) (hS : NonemptyStops cfg.stop) (hS2 : NonemptyStops cfg2.stop)
+    (text : Str) (cs : List Str) (e : EndProto) (hflat : cs.flatten = text) (hne : ∀ c ∈ cs, c ≠ [])
+    (hend : ∃ x ∈ (run cfg cs e).out, isEnd x = true) :
+    delivered (pipeTargetCfg cfg2 (run cfg cs e).out) = spec cfg2 (spec cfg text e) .empty ∧
+      (pipeTargetCfg cfg2 (run cfg cs e).out).completion = spec cfg2 (spec cfg text e) .empty := by
+  subst hflat
+  exact pipe_cfg_delivered hS hS2 cs hne e hend
+
+/-- … and with `on_llm_end` in the end protocol (what LangChain does) the end marker is always forwarded -/
+theorem pipe_configured_chunk_invariant_llm_end (cfg cfg2 : Cfg) (hS : NonemptyStops cfg.stop) (hS2 : NonemptyStops cfg2.stop)
+    (text : Str) (cs : List Str) (e : EndProto) (hflat : cs.flatten = text) (hne : ∀ c ∈ cs, c ≠ [])
+    (he : e.hasLlmEnd = true) :
+    delivered (pipeTargetCfg cfg2 (run cfg cs e).out) = spec cfg2 (spec cfg text e) .empty ∧
+      (pipeTargetCfg cfg2 (run cfg cs e).out).completion = spec cfg2 (spec cfg text e) .empty :=
+  pipe_configured_chunk_invariant cfg cfg2 hS hS2 text cs e hflat hne (run_has_end hS cs hne e he)
+
+/-- non-vacuity: producer strips `P:` … `"` and stops at `"\n`; the piped handler strips `[` … `]` and stops at `;`;
+    chunk boundaries inside every pattern; and a witness that WITHOUT an end marker the second stage keeps its tail
+    (stop hit, then `push_chunk("")`: nothing is forwarded any more) -/
+example :
+    let cfg : Cfg := ⟨"P:".toList, "\"".toList, ["\"\n".toList]⟩
+    let cfg2 : Cfg := ⟨"[".toList, "]".toList, [";".toList]⟩
+    let cs := ["P".toList, ":[a".toList, "b]".toList, "\"".toList, "\nx".toList]
+    (∃ x ∈ (run cfg cs .llmEnd).out, isEnd x = true) ∧
+    delivered (pipeTargetCfg cfg2 (run cfg cs .llmEnd).out) = "ab".toList ∧
+    (¬ ∃ x ∈ (run cfg cs .empty).out, isEnd x = true) ∧
+    delivered (pipeTargetCfg cfg2 (run cfg cs .empty).out) = "a".toList := by
+  decide
+
 /-! ### The library's own use of the handler (`Models/StreamUsage.lean`, repaired variant)
 
 `usageRun true true site cs a b endPos` = the operation sequence of the single-call mode
@@ -304,5 +347,126 @@ theorem direct_chunk_invariant (site : Site) (text : Str) (cs : List Str) (again
       (execOps true (directOps site cs again) H0).st.completion = spec ⟨site.pfx, site.suffix, []⟩ text .llmEnd := by
   rw [directRun_st site cs again hne]
   exact chunk_invariant ⟨site.pfx, site.suffix, []⟩ (by intro s h; cases h) text cs .llmEnd hflat hne
+
+/-! ### Buffering mode: the event, the waiter's precondition, the value the waiter returns (phase 4) -/
+
+/-- The character scans of the usage model ARE the line-by-line code of streaming.py: `qualCount` is the number of
+    lines of `buffer.split("\n")` whose `strip()` is non-empty and does not start with `#` (the event condition of
+    `_process`), and `dropTopK` is `"\n".join(lines[i + 1:])` of the loop in `wait_top_k_nonempty_lines`. -/
+theorem scans_are_the_line_code (k : Nat) (buf : Str) :
+    qualCount none buf = qualLines buf ∧ (dropTopK k none buf).getD [] = restBuffer k buf :=
+  ⟨qualCount_eq_lines buf, dropTopK_eq_lines k buf⟩
+
+/-- EVENT ⇒ PRECONDITION (the former hypotheses `hsplit`/`hr0` of `usage_chunk_invariant`, now proved): when the
+    event `top_k_nonempty_lines_event` is set after `a` tokens — the buffer had more than k > 0 non-empty lines at
+    some moment — the k-th non-empty line of the buffer is terminated and a non-empty rest follows it. -/
+theorem event_implies_precondition (site : Site) (cs : List Str) (a : Nat) (hne : ∀ c ∈ cs, c ≠ [])
+    (hev : eventSetAt true site cs a = true) :
+    ∃ r0, dropTopK site.k none (cs.take a).flatten = some r0 ∧ r0 ≠ [] :=
+  event_precondition site cs a hne hev
+
+/-- The value `wait_top_k_nonempty_lines(k)` returns (it feeds the intent parser) is chunk- and schedule-invariant:
+    whenever the waiter can resume it returns the first k non-empty, non-comment lines of the WHOLE LLM text. -/
+theorem returned_chunk_invariant (site : Site) (text : Str) (cs : List Str) (a : Nat)
+    (hflat : cs.flatten = text) (hne : ∀ c ∈ cs, c ≠ []) (hev : eventSetAt true site cs a = true) :
+    waiterReturn true site cs a = returned site.k text := by
+  subst hflat
+  exact waiterReturn_eq site cs a hne hev
+
+/-- USAGE STATEMENT without the waiter hypothesis: the only assumption on the schedule is that the waiter resumed
+    because its event was set (`eventSetAt`, a computed flag of the model, compared with the real
+    `top_k_nonempty_lines_event.is_set()` on every run).  Adds the returned value. -/
+theorem usage_chunk_invariant_event (site : Site) (hS : NonemptyStops site.stop) (text : Str) (cs : List Str)
+    (a b endPos : Nat) (hflat : cs.flatten = text) (hne : ∀ c ∈ cs, c ≠ [])
+    (hend : endPos = 0 ∨ ((endPos = 1 ∨ endPos = 2) ∧ cs.drop (a + b) = []))
+    (hev : eventSetAt true site cs a = true) :
+    ∃ rest, dropTopK site.k none text = some rest ∧
+      deliveredItems (consumerItems (usageRun true true site cs a b endPos)) = spec site.cfg rest .llmEnd ∧
+      (usageRun true true site cs a b endPos).st.completion = spec site.cfg rest .llmEnd ∧
+      (usageRun true true site cs a b endPos).st.finished = true ∧
+      waiterReturn true site cs a = returned site.k text := by
+  obtain ⟨r0, hr0, hne0⟩ := event_precondition site cs a hne hev
+  obtain ⟨rest, h1, h2, h3, h4⟩ := usage_chunk_invariant site hS text cs a b endPos r0 hflat hne hend hr0 hne0
+  exact ⟨rest, h1, h2, h3, h4, returned_chunk_invariant site text cs a hflat hne hev⟩
+
+/-- non-vacuity: FakeLLM's tokens of tests/test_streaming.py::test_streaming_single_llm_call — the event is set after
+    6 tokens (not after 5), the waiter returns the two intent lines -/
+example :
+    let site : Site := ⟨"  \"".toList, "\"".toList, ["\"\n".toList], 2⟩
+    let cs := ["  express ", "greeting\nbot ", "express ", "greeting\n ", " ", "\"Hi, ", "how ", "are ", "you?\""].map String.toList
+    eventSetAt true site cs 6 = true ∧ eventSetAt true site cs 5 = false ∧
+      waiterReturn true site cs 6 = "  express greeting\nbot express greeting".toList := by
+  decide
+
+/-- The whitespace class of the model is Python's: the table the translator reads from the running CPython
+    (`chr(c).isspace()` for all of Unicode) is exactly this one — ASCII blanks, \x1c–\x1f, NEL, NBSP, U+1680,
+    U+2000–U+200A, U+2028/9, U+202F, U+205F, U+3000 (finite fact about generated data, `decide`). -/
+theorem ws_table_pinned : NemoVerif.Generated.C18.wsCodes =
+    [9, 10, 11, 12, 13, 28, 29, 30, 31, 32, 133, 160, 5760, 8192, 8193, 8194, 8195, 8196, 8197, 8198, 8199, 8200,
+     8201, 8202, 8232, 8233, 8239, 8287, 12288] := by decide
+
+/-- a line of no-break / ideographic / line-separator blanks is an EMPTY line for the waiter (as for `str.strip()`) -/
+example : qualLines "\u00a0\u3000\u2028\n x\n# c\ny".toList = 2 ∧
+    returned 2 "\u00a0\u3000\u2028\n\u00a0x\n# c\ny\nz".toList = "\u00a0x\ny".toList := by decide
+
+/-! ### Configuration changed while the stream runs: the orders the actions really perform (phase 4) -/
+
+theorem opNames_append (xs ys : List Op) : opNames (xs ++ ys) = opNames xs ++ opNames ys := by
+  induction xs with
+  | nil => rfl
+  | cons x xs ih => cases x <;> simp [opNames, ih]
+
+theorem opNames_tokens (cs : List Str) : opNames (cs.map Op.token) = [] := by
+  induction cs with
+  | nil => rfl
+  | cons c cs ih => simpa [opNames] using ih
+
+/-- The op sequence `usage_chunk_invariant` quantifies over has, for every chunking and schedule, exactly the
+    handler operations generate_intent_steps_message + generate_bot_message perform, in the order the translator
+    read from the source (enable_buffering, wait_top_k_nonempty_lines, set_pattern AFTER tokens were buffered,
+    set_pipe_to, `.stop =`, disable_buffering; tokens and on_llm_end interleave anywhere).  A reordered or
+    additional call in generation.py breaks this theorem (or the translator's shape check). -/
+theorem generated_protocol_ok (site : Site) (cs : List Str) (a b endPos : Nat) :
+    opNames (usageOps NemoVerif.Generated.C18.stopBeforeDisable site cs a b endPos) =
+      NemoVerif.Generated.C18.singleCallProtocol := by
+  have hsb : NemoVerif.Generated.C18.stopBeforeDisable = true := by decide
+  rw [hsb]
+  simp only [usageOps, opNames_append, opNames_tokens]
+  have hp : NemoVerif.Generated.C18.singleCallProtocol =
+      ["enable_buffering", "wait_top_k_nonempty_lines", "set_pattern", "set_pipe_to", "stop=", "disable_buffering"] := by decide
+  rw [hp]
+  by_cases h2 : endPos = 2 <;> by_cases h1 : endPos = 1 <;> by_cases h0 : endPos = 0 <;> simp [opNames, h0, h1, h2]
+
+/-- `usage_chunk_invariant_event` for the configurations the library really uses (no hypothesis on the stop
+    sequences or k left: `generated_sites_ok`) -/
+theorem usage_invariant_generated_event (site : Site) (hs : site ∈ generatedSites) (text : Str) (cs : List Str)
+    (a b endPos : Nat) (hflat : cs.flatten = text) (hne : ∀ c ∈ cs, c ≠ [])
+    (hend : endPos = 0 ∨ ((endPos = 1 ∨ endPos = 2) ∧ cs.drop (a + b) = []))
+    (hev : eventSetAt true site cs a = true) :
+    ∃ rest, dropTopK site.k none text = some rest ∧
+      deliveredItems (consumerItems (usageRun true true site cs a b endPos)) = spec site.cfg rest .llmEnd ∧
+      (usageRun true true site cs a b endPos).st.completion = spec site.cfg rest .llmEnd ∧
+      (usageRun true true site cs a b endPos).st.finished = true ∧
+      waiterReturn true site cs a = returned site.k text :=
+  usage_chunk_invariant_event site (generated_sites_ok.2 site hs).1 text cs a b endPos hflat hne hend hev
+
+/-- Why the protocol matters (*witness*, `decide`): `set_pattern` on a handler that is NOT buffering, after text
+    already went through it, is schedule-dependent — the same text `P:x"` with the same pattern gives `x` when the
+    pattern is set first and `P:x` (prefix left in) when one token slipped through before.  The library never does this: in the
+    single-call mode every token before `set_pattern` is buffered (`generated_protocol_ok`: `enable_buffering` comes
+    first), in the direct mode `set_pattern` precedes the LLM call (`generated_direct_protocol_ok`). -/
+theorem unbuffered_set_pattern_mid_stream_counterexample :
+    let p := "P:".toList
+    let q := "\"".toList
+    delivered (execOps true [Op.setPattern p q, Op.token "P:".toList, Op.token "x\"".toList, Op.llmEnd] H0).st = "x".toList ∧
+    delivered (execOps true [Op.token "P:".toList, Op.setPattern p q, Op.token "x\"".toList, Op.llmEnd] H0).st = "P:x".toList := by
+  decide
+
+/-- direct mode: `set_pattern` before the first token, the utterance pushed once more after the LLM call -/
+theorem generated_direct_protocol_ok (site : Site) (cs : List Str) (again : Str) :
+    opNames (directOps site cs again) = NemoVerif.Generated.C18.directProtocol.filter (· != "llm_call") := by
+  have hp : NemoVerif.Generated.C18.directProtocol = ["set_pattern", "llm_call", "push_chunk"] := by decide
+  rw [hp]
+  simp [directOps, opNames_append, opNames_tokens, opNames]
 
 end NemoVerif.C18
